@@ -118,7 +118,23 @@ SUBQ_GEN += ["SELECT a FROM t1 WHERE b > 0 AND NOT exists(%s)" % _SUBQ[3], "SELE
 SUBQ_DML = ["DELETE FROM t1 WHERE %s(%s)" % (e, q) for e in ('exists', 'NOT exists') for q in (_SUBQ[0], _SUBQ[3], _SUBQ[4], _SUBQ[9])]
 SUBQ_DML += ["UPDATE t1 SET a = 0 WHERE %s(%s)" % (e, q) for e in ('exists', 'NOT exists') for q in (_SUBQ[1], _SUBQ[3], _SUBQ[4])]
 SUBQ_DML += ["UPDATE t1 SET a = (%s) WHERE b > 0" % _SUBQ[4], "DELETE FROM t1 WHERE a IN (%s)" % _SUBQ[3]]
-SELECTS = SELECTS + ORDER_GEN + SETOP_TAIL + GROUP_GEN + WINDOW_GEN + SUBQ_GEN
+# operator pairs: every expression form the renderer maps (to_expression) as the OUTER node, with every form as a parenthesised
+# INNER operand in each operand slot - the renderer rebuilds the grouping from the tree, SQLAlchemy decides where to put parentheses
+_INNER = ['a + b', 'a - b', 'a * b', 'a % 2', 'a = b', 'a != b', 'a < b', 'a >= b', 'a AND b', 'a OR b', 'a LIKE b', 'a IN (1, b)', 'a NOT IN (1, 2)',
+          'a BETWEEN 1 AND b', 'a IS NULL', 'a IS NOT NULL', 'NOT a', '-a', 'CASE WHEN a > 1 THEN b ELSE 0 END', 'coalesce(a, b)',
+          'SELECT max(c) FROM t2', 'exists(SELECT 1 FROM t2 WHERE t2.id = t1.id)']
+_OUTER = ['{X} + id', 'id + {X}', '{X} - id', 'id - {X}', '{X} * id', 'id * {X}', '{X} % 3', 'id % {X}', '{X} = id', 'id = {X}', '{X} < id', 'id < {X}',
+          '{X} != id', 'id >= {X}', '{X} AND id', 'id AND {X}', '{X} OR id', 'id OR {X}', '{X} LIKE id', 'id LIKE {X}', '{X} IN (1, id)', 'id IN (1, {X})',
+          '{X} NOT IN (1, 2)', 'id NOT IN ({X}, 2)', '{X} BETWEEN 0 AND id', 'id BETWEEN {X} AND 2', 'id BETWEEN 0 AND {X}', '{X} IS NULL', '{X} IS NOT NULL',
+          'NOT {X}', '-{X}', 'CASE WHEN {X} THEN 1 ELSE 2 END', 'CASE {X} WHEN 1 THEN 1 ELSE 2 END', 'CASE WHEN id > 1 THEN {X} ELSE 2 END', 'coalesce({X}, id)']
+_BOOL_OUT = ('=', '<', '!=', '>=', ' AND ', ' OR ', 'LIKE', ' IN ', 'BETWEEN', ' IS ', 'NOT ')
+OPPAIR_GEN = ["SELECT id, %s AS x FROM t1" % o.replace('{X}', '(%s)' % i) for o in _OUTER for i in _INNER]
+OPPAIR_GEN += ["SELECT id FROM t1 WHERE %s" % o.replace('{X}', '(%s)' % i) for o in _OUTER if any(k in o for k in _BOOL_OUT) for i in _INNER]
+# the same nests three deep on the classic non-associative spots
+OPPAIR_GEN += ["SELECT id, %s AS x FROM t1" % e for e in ('a - (b - (id - 1))', '(a - b) - (id - 1)', 'a - (b + (id - 1))', 'a * (b + id) * 2', '-(a - (-b))', 'NOT (NOT (a = b) OR a > 1)',
+               '(a = b) = (id = 1)', '(a < b) < (b < id)', 'a - (b * (id + 1))', '(a + b) % (id + 1)', 'a % (b % 3)', '(a % 3) % 2', '-(a % 3)', '(-a) % 3', 'NOT (a BETWEEN 1 AND 2)',
+               'NOT ((a IS NULL) = (b IS NULL))', '(NOT a) IS NULL', 'NOT (a IS NULL)', '(a OR b) AND (id OR a)', 'a OR (b AND (id OR a))')]
+SELECTS = SELECTS + ORDER_GEN + SETOP_TAIL + GROUP_GEN + WINDOW_GEN + SUBQ_GEN + OPPAIR_GEN
 
 DML = [
     "DELETE FROM t1 WHERE a > 1",
@@ -204,6 +220,8 @@ def readback(text):
     members of set operations are kept apart as derived tables)"""
     from mindsdb_sql import parse_sql
     t = re.sub(r'"([A-Za-z_][A-Za-z_0-9]*)"', r'`\1`', text)
+    # the mindsdb grammar has no NOT BETWEEN; sqlalchemy writes NOT (x BETWEEN l AND u) that way (simple operands only)
+    t = re.sub(r'([\w.`]+) NOT BETWEEN ([\w.`]+) AND ([\w.`]+)', r'NOT (\1 BETWEEN \2 AND \3)', t)
     return parse_sql(member_parens_to_derived(t), 'mindsdb')
 
 
